@@ -78,6 +78,11 @@ def steady_state_transport_solver(
     # array, which made repeated identical calls differ in the last bits
     q0 = np.ascontiguousarray(srf_flx)
     p000 = srf_bg_conc
+    # native float64 arrays: the compiled sweep reads the raw memory of z and the
+    # profiles, so big-endian data (as read from binary files) was either
+    # rejected or silently misread, depending on what had been compiled before
+    z = np.ascontiguousarray(z, dtype=float)
+    profiles = tuple(np.ascontiguousarray(prof, dtype=float) for prof in profiles)
     u, v, Kx, Ky, Kz = profiles
     xmx, ymx = domain
     nlx, nly = modes
